@@ -570,6 +570,35 @@ def run(ctx):
                 ctx.report('property', f'the prepared data (dims {prep.dims}) does not hold, for each piece, the values of that '
                            f"piece's cell at every depth", case)
                 continue
+            # ---- a variable without the depth dimension has no values per depth: it is refused, or handed back with the depth
+            # dimension; and a depth coordinate asked for by name is the one the transect uses
+            if ctx.evaluations % 3 == 0:
+                with warnings.catch_warnings():
+                    warnings.simplefilter('ignore')
+                    r = attempt(lambda: t.prepare_data_array_for_transect(ds['field'].isel(k=0, drop=True)))
+                ctx.count('variable without the depth dimension')
+                if r[0] == 'ok' and 'k' not in r[1].dims:
+                    ctx.report('property', f'a variable without the depth dimension was prepared for the section (dims {r[1].dims}): it '
+                               f'holds no value per depth', case)
+                    continue
+                alt = ds.assign_coords(kw_centre=xarray.DataArray(numpy.arange(sp['n'] + 1, dtype='f8') * 2.0 + 0.5, dims=['kw'],
+                                                                  attrs={'positive': 'down', 'units': 'm', 'long_name': 'depth'}))
+                nbad = None
+                for nm_ in (depth_name, 'kw_centre'):
+                    with warnings.catch_warnings():
+                        warnings.simplefilter('ignore')
+                        r = attempt(lambda: transect_mod.Transect(alt, line, depth=nm_).transect_dataset)
+                    if r[0] != 'ok':
+                        nbad = f'Transect(depth={nm_!r}) failed: {r[1]}'
+                    elif not numpy.array_equal(r[1]['depth'].values, alt[nm_].values):
+                        nbad = (f'Transect(depth={nm_!r}) uses the depth axis {r[1]["depth"].values.tolist()}, the coordinate named holds '
+                                f'{alt[nm_].values.tolist()}')
+                    if nbad:
+                        break
+                ctx.count('depth coordinate given by name')
+                if nbad:
+                    ctx.report('property', nbad, case)
+                    continue
             # ---- the section drawn from it: every patch spans one piece's distances and one layer's depth bounds and is coloured
             # with the value of that piece's cell in that layer
             if ctx.evaluations % 2 == 0 and segs:
